@@ -326,6 +326,42 @@ def retag(x, rng, allow_empty=False):
     return y
 
 
+def nullable_chain_cfg(rng):
+    """the start variable derives the empty word only indirectly (through unit rules / products of nullable variables), no rule S -> epsilon"""
+    V = ['S', 'A', 'B', 'C'][:rng.randint(2, 4)]
+    rules = []
+    last = V[-1]
+    rules.append([last, []])
+    rules.append([last, [['T', rng.choice('ab')], ['V', last]]] if rng.random() < 0.7 else [last, [['T', 'a']]])
+    for i in range(len(V) - 2, -1, -1):
+        v, nxt = V[i], V[i + 1]
+        shape = rng.random()
+        if shape < 0.4:
+            rules.append([v, [['V', nxt]]])
+        elif shape < 0.8:
+            rules.append([v, [['V', nxt], ['V', rng.choice(V[i + 1:])]]])
+        else:
+            rules.append([v, [['V', nxt], ['V', nxt], ['V', nxt]]])
+        if rng.random() < 0.5:
+            rules.append([v, [['T', rng.choice('ab')]] + ([['V', v]] if rng.random() < 0.5 else [])])
+    rules.sort(key=lambda r: V.index(r[0]))
+    return mk_cfg(rules, 'S', extra_vars=V)
+
+
+def replace_pda(rng):
+    """a run that pushes X, replaces it by Y (pop X, push Y) and then pops: distinguishes the popped from the pushed symbol of a replace move"""
+    x, y = rng.choice([('x', 'y'), ('y', 'x'), ('x', '$')])
+    e = rng.choice(['_', 'ε'])
+    a, b, c, d = rng.sample(['a', 'b', 'c', 'd'], 4) if rng.random() < 0.5 else ('a', 'b', 'a', 'b')
+    delta = [['q0', a, e, 'q1', x], ['q1', b, x, 'q2', y], ['q2', c, y, 'q3', e], ['q2', d, x, 'q4', e]]
+    if rng.random() < 0.5:
+        delta.append(['q1', a, e, 'q1', x])
+    rng.shuffle(delta)
+    F = rng.choice([['q3'], ['q4'], ['q3', 'q4']])
+    sigma = sorted(set([a, b, c, d]))
+    return {'Q': ['q0', 'q1', 'q2', 'q3', 'q4'], 'Sigma': sigma, 'Gamma': sorted(set([x, y])), 'delta': delta, 'q0': 'q0', 'F': F, 'eps': e}
+
+
 def relabel_re(t, codes):
     """rename the symbols 0..k-1 of a regexp tree to the given codes"""
     if t[0] == 's':
